@@ -70,6 +70,33 @@ class Flow:
         self._min_hit = _INF
         self._override = None  # path environment {name: term} used by tables.paths
 
+    def _frozen_display(self, name):
+        """``name`` is bound exactly once in the function, to a list / tuple display, and every other occurrence is the
+        operand of ``*name`` in a call or the iterable of a comprehension / ``for``"""
+        cache = self.__dict__.setdefault("_frozen_cache", {})
+        if name in cache:
+            return cache[name]
+        root = self.fi.node
+        allowed, stores, loads = set(), [], []
+        for sub in ast.walk(root):
+            if isinstance(sub, ast.Starred) and isinstance(sub.value, ast.Name):
+                allowed.add(id(sub.value))
+            elif isinstance(sub, ast.comprehension) and isinstance(sub.iter, ast.Name):
+                allowed.add(id(sub.iter))
+            elif isinstance(sub, (ast.For, ast.AsyncFor)) and isinstance(sub.iter, ast.Name):
+                allowed.add(id(sub.iter))
+            elif isinstance(sub, (ast.Global, ast.Nonlocal)) and name in sub.names:
+                stores.append(None)
+            if isinstance(sub, ast.Name) and sub.id == name:
+                (loads if isinstance(sub.ctx, ast.Load) else stores).append(sub)
+            elif isinstance(sub, ast.arg) and sub.arg == name:
+                stores.append(None)
+        ok = len(stores) == 1 and stores[0] is not None and all(id(x) in allowed for x in loads)
+        if ok:
+            ok = any(isinstance(st, ast.Assign) and len(st.targets) == 1 and st.targets[0] is stores[0] and isinstance(st.value, (ast.List, ast.Tuple)) for st in ast.walk(root))
+        cache[name] = ok
+        return ok
+
     # ------------------------------------------------------------------ definitions
     def _collect_defs(self):
         cfg = self.cfg
@@ -382,6 +409,16 @@ class Flow:
             # typing.cast(T, x) is the identity on x
             if callee in (("module", "typing.cast"), ("attr", ("module", "typing"), "cast")) and len(args) == 2 and not kwargs:
                 return args[1]
+            if any(isinstance(x, ast.Starred) for x in e.args):
+                # f(*[a, b, c]) is f(a, b, c): the display written in place, or a local bound once to a display and only
+                # iterated over besides (never handed on, never the receiver of a method)
+                spread = []
+                for x, a in zip(e.args, args):
+                    if isinstance(x, ast.Starred) and a[1][0] == "display" and a[1][1] in ("tuple", "list") and not any(y[0] == "star" for y in a[1][2]) and (isinstance(x.value, (ast.List, ast.Tuple)) or (isinstance(x.value, ast.Name) and self._frozen_display(x.value.id))):
+                        spread.extend(a[1][2])
+                    else:
+                        spread.append(a)
+                args = tuple(spread)
             args, kwargs = normalise_args(self.model, callee, args, kwargs)
             return ("call", callee, args, kwargs, self.site(e))
         if isinstance(e, (ast.Tuple, ast.List, ast.Set)):
